@@ -60,6 +60,18 @@ CHECKS = {
             "The harness extracts from /repo's current source every package-level variable and every function outside init that writes, reads or passes one on, and emits them as a TLA+ module; TLC checks NonInterference and RaceFree for all interleavings of three goroutines; the decisive part are executions: eleven kinds of entry-point tasks on private data run by 2-16 goroutines at GOMAXPROCS 1-16 with seeded perturbation under -race, each result compared with its solo result, plus history runs (after unrelated calls, reversed, second process); TLC validates every per-goroutine log, the race detector's verdict and the history digests.",
             "The race detector observes only schedules that occur; the static extraction is syntactic. A write found only by the model is reported as a candidate in the evidence, not as a violation.",
             "DESIGN.md §4 C20"),
+    "C05": ("TLA+ round-trip protocol spec Printer.tla and hazard generator PrinterGen.tla (contexts x frames x inner constructs with the parenthesisation and separator relations of the ECMAScript grammar); replay and recorded inputs judged by TLC trace validation",
+            "TLC enumerates the spacing / parenthesisation hazard scenarios (27 statement contexts, 85 frames with required ladder level, 84 inner constructs, minimal and forced parentheses, multi-line literals at indentation depth 0-3) and samples nested ones; the harness parses each under all four Options, prints, re-parses, compares the two trees by reflection modulo GroupExpr, prints again and checks literal and preserved-comment fidelity; inputs not designed by the spec (harvested test literals, snippet combinations, ScopeSem programs) go through the same protocol; TLC validates every event sequence against Printer.tla.",
+            "Tree comparison ignores scope tables and Var identity (names only); 'expression position' is read as any literal the first tree does not hold in a non-expression slot.",
+            "DESIGN.md §4 C05"),
+    "C07": ("TLA+ token grammar CssTokens.tla (173 atoms, Merges/NeedsSep derived from the standard) cross-checked in TLC against an independent transcription of CSS Syntax §4.3 (CssRef.tla: invariants RefAgrees, Tight); all atom pairs x separators, triples and class strings replayed on css.Lexer / IsIdent / IsURLUnquoted and judged by TLC trace validation",
+            "TLC enumerates every pair of token atoms with every admissible separator, look-ahead-sensitive triples, deep random sequences, and every class string up to length 4-5 for the IsIdent/IsURLUnquoted agreement; before the code is involved TLC checks that the reference tokeniser maps every generated text to the expected tokens; the harness lexes each concretised text and TLC validates (kind, text) lists and the Is-facts against CssTokens.tla.",
+            "2014 CR edition of CSS Syntax (the only one with every token the statement lists). One recorded finding (unicode range followed by '-').",
+            "DESIGN.md §4 C07"),
+    "C11": ("TLA+ grammar-as-behaviour XmlDoc.tla (XML 1.0 productions with expected tokens) and monitor XmlStream.tla; documents, seeded spellings and mutations lexed by xml.Lexer and by encoding/xml; TLC trace validation",
+            "TLC derives every document of up to 3-4 constructs (prolog, PIs with pseudo-attributes, DOCTYPE with internal subset, comments, CDATA with look-alikes, elements with both quote styles, empty-element tags, character data) with the expected token list; the harness spells each (several seeded spellings), lexes it, runs encoding/xml on it, and mutates it (truncation, NUL, 0xFF, lone lead byte); TLC validates the token list, the three-way agreement of element/attribute names and values, and for all inputs that attribute tokens occur only inside a tag and that an embedded NUL ends in a non-EOF error.",
+            "Entity references in attribute values, CRLF inside values and conditional sections are not generated; DOCTYPE text compared after trimming.",
+            "DESIGN.md §4 C11"),
 }
 NOT_APPLICABLE = {
 }
